@@ -362,6 +362,12 @@ func (fr *Frame) afterCallA(st *State, name string, res Val, args []Val) {
 				u.regHeap(tn, "Int")
 				u.heapSet(st, tn, app("+", u.heapCur(st, tn), ite(r.T, "1", "0")))
 			}
+			if r.S == "Int" && r.Ty != nil && types.IsInterface(r.Ty) {
+				// countnil<k>("pat"): number of calls whose k-th result (an error, say) was nil
+				tn := fmt.Sprintf("$cntnil:%s:%d", pat, k)
+				u.regHeap(tn, "Int")
+				u.heapSet(st, tn, app("+", u.heapCur(st, tn), ite(eq(r.T, "0"), "1", "0")))
+			}
 		}
 		for k, r := range rs {
 			if r.T == "" || r.S == "" {
@@ -390,7 +396,7 @@ func (fr *Frame) ghostPatterns() []string {
 	walk = func(e Expr) {
 		switch x := e.(type) {
 		case *ECall:
-			if (x.Fn == "called" || x.Fn == "ret" || x.Fn == "ret1" || x.Fn == "ret2" || x.Fn == "ret3" || x.Fn == "first" || x.Fn == "count" || x.Fn == "counttrue0" || x.Fn == "counttrue1") && len(x.Args) >= 1 {
+			if (x.Fn == "called" || x.Fn == "ret" || x.Fn == "ret1" || x.Fn == "ret2" || x.Fn == "ret3" || x.Fn == "first" || x.Fn == "count" || x.Fn == "counttrue0" || x.Fn == "counttrue1" || x.Fn == "countnil0" || x.Fn == "countnil1" || x.Fn == "countnil2") && len(x.Args) >= 1 {
 				if s, ok := x.Args[0].(*EStr); ok && !seen[s.V] {
 					seen[s.V] = true
 					out = append(out, s.V)
@@ -531,7 +537,7 @@ func (fr *Frame) applyContract(st *State, fc *FuncContract, callee *ssa.Function
 	return resultVal(u, sig, res)
 }
 
-var ghostRe = regexp.MustCompile(`\b(called|ret|ret1|ret2|ret3|first|count|counttrue0|counttrue1)\("`)
+var ghostRe = regexp.MustCompile(`\b(called|ret|ret1|ret2|ret3|first|count|counttrue0|counttrue1|countnil0|countnil1|countnil2)\("`)
 
 func shortName(n string) string {
 	if i := strings.LastIndex(n, "/"); i >= 0 {
